@@ -80,6 +80,11 @@ pub struct Obs {
     /// (used to describe a case that panics and therefore returns no `Fail`)
     pub capture: bool,
     pub case: Option<Json>,
+    /// a case that executes many sub-cases (e.g. one seed crossed with every single fault)
+    /// reports them here: they are added to the evaluation count
+    pub sub_evals: u64,
+    pub sub_nontrivial: Vec<u64>,
+    pub counts: Vec<(String, u64)>,
 }
 
 impl Obs {
@@ -92,6 +97,9 @@ impl Obs {
             excluded: false,
             capture: false,
             case: None,
+            sub_evals: 0,
+            sub_nontrivial: Vec::new(),
+            counts: Vec::new(),
         }
     }
     /// describe the case about to be executed (evaluated only in capture mode)
@@ -109,6 +117,15 @@ impl Obs {
     /// mark the case non-trivial; `parts` identify it for distinct counting
     pub fn nontrivial(&mut self, parts: &[&[u8]]) {
         self.nontrivial = Some(digest(parts));
+    }
+    /// one executed sub-case: class label and identity for distinct counting
+    pub fn sub(&mut self, class: &str, parts: &[&[u8]]) {
+        self.sub_evals += 1;
+        self.sub_nontrivial.push(digest(parts));
+        match self.counts.iter_mut().find(|(k, _)| k == class) {
+            Some(e) => e.1 += 1,
+            None => self.counts.push((class.to_string(), 1)),
+        }
     }
     pub fn sample_with(&mut self, f: impl FnOnce() -> Json) {
         if self.want_sample && self.sample.is_none() {
@@ -269,9 +286,15 @@ impl Ctx {
             self.excluded_known += 1;
             return;
         }
-        self.evaluations += 1;
+        self.evaluations += 1 + obs.sub_evals;
         if let Some(d) = obs.nontrivial {
             self.nontrivial.insert(d);
+        }
+        for d in obs.sub_nontrivial {
+            self.nontrivial.insert(d);
+        }
+        for (k, n) in obs.counts {
+            *self.hist.entry(k).or_insert(0) += n;
         }
         for l in obs.labels {
             *self.hist.entry(l).or_insert(0) += 1;
